@@ -76,6 +76,11 @@ def known_class(case, obs):
                 return "symlink-at-destination"
             if src in links and any(os.path.normpath(os.path.join(d2, g2[1])) == src for d2, _, g2 in obs["gens"] if g2[0] == "P"):
                 return "symlink-at-destination"
+    # a link that the run itself moves: its new path is "the path of a symbolic link" for every later file
+    moved = [(os.path.normpath(os.path.join(d, rel)), os.path.normpath(os.path.join(d, g[1]))) for d, rel, g in obs["gens"] if g[0] == "P"]
+    link_dsts = {dst for src, dst in moved if src in links and src != dst}
+    if any(dst in link_dsts and src not in links for src, dst in moved):
+        return "symlink-at-destination"
     for a in case["answers"]:
         if a[0] == "custom":
             dst = a[1]
